@@ -121,7 +121,7 @@ impl Prop for C18 {
         ctx.tier.pick(128, 1_000)
     }
     fn rule(&self) -> &'static str {
-        "real binary, files mode: batches of 20-120 (quick) / 20-400 (thorough) files with heavy-tailed sizes (1 byte to ~150 KiB), mixed BOM encodings (none, UTF-8, UTF-16LE/BE), duplicated names in sub-directories, failing subsets (missing, undecodable, directory named *.pas) x RAYON_NUM_THREADS in {1,2,3,8,16,64} x PASFMT_VERIF_DELAY_SEED (hook: deterministic per-file delays before read and before write move the work-stealing decisions); oracle: every file byte-equal to the result of formatting it alone with the same binary; failing members untouched, others unaffected; exit status != 0 iff some member failed. The schedule is observed through the hook trace (thread, order, reused buffer capacity): evidence counts distinct schedules and shorter-after-longer buffer reuses. Non-trivial: batch in which some worker handled >= 3 files of different lengths; distinct by schedule signature."
+        "real binary, files mode: batches of 20-120 (quick) / 20-400 (thorough) files with heavy-tailed sizes (1 byte to ~150 KiB), mixed BOM encodings (none, UTF-8, UTF-16LE/BE), duplicated names in sub-directories, names that differ only in letter case, failing subsets (missing, undecodable, directory named *.pas) x RAYON_NUM_THREADS in {1,2,3,8,16,64} x PASFMT_VERIF_DELAY_SEED (hook: deterministic per-file delays before read and before write move the work-stealing decisions); oracle: every file byte-equal to the result of formatting it alone with the same binary; failing members untouched, others unaffected; exit status != 0 iff some member failed. The schedule is observed through the hook trace (thread, order, reused buffer capacity): evidence counts distinct schedules and shorter-after-longer buffer reuses. Non-trivial: batch in which some worker handled >= 3 files of different lengths; distinct by schedule signature."
     }
     fn floor(&self, tier: Tier) -> u64 {
         tier.pick(20, 400)
@@ -156,7 +156,15 @@ impl Prop for C18 {
                 2 => "a/b/",
                 _ => "c/",
             };
-            let name = if rng.chance(1, 6) { "unit.pas".to_string() } else { format!("u{i}.{}", rng.pick(&["pas", "dpr", "dpk"])) };
+            let mut name = if rng.chance(1, 6) { "unit.pas".to_string() } else { format!("u{i}.{}", rng.pick(&["pas", "dpr", "dpk"])) };
+            // paths that differ from an earlier member only in letter case are different files
+            // (case-sensitive file system): `a/Unit.pas` next to `a/unit.pas`, `U7.PAS` next to `u7.pas`
+            if rng.chance(1, 10) {
+                if let Some(m) = members.iter().filter(|m| m.rel.starts_with(sub) && !m.rel[sub.len()..].contains('/')).last() {
+                    let base = &m.rel[sub.len()..];
+                    name = if rng.bool() { base.to_ascii_uppercase() } else { let mut c = base.chars(); c.next().map(|f| f.to_ascii_uppercase().to_string() + c.as_str()).unwrap_or_default() };
+                }
+            }
             let rel = format!("{sub}{name}");
             if members.iter().any(|m| m.rel == rel) {
                 continue;
